@@ -693,6 +693,8 @@ ${(
 
   or _('expression-after-blank-line')
 )}
+${_ ('space-before-parenthesis')}
+<% spaced = _  ('two-spaces-before-parenthesis') %>
 """
 
 
@@ -728,7 +730,7 @@ def extract_corpus(which, leading_blank_lines):
         return None
     out = []
     for i, ln in enumerate(tmpl.split("\n"), 1):
-        for mk in re.findall(r"_\('([a-z0-9-]+)'", ln):
+        for mk in re.findall(r"_\s*\('([a-z0-9-]+)'", ln):
             got = [r[0] for r in res if r[1] == mk]
             if mk.startswith("decoy"):
                 if got:
@@ -1019,3 +1021,43 @@ def traceback_probe(position, source, lead):
         return ((same_file, r[5], r[6]), (True, want_line, all_lines[want_line - 1]))
     finally:
         shutil.rmtree(base, ignore_errors=True)
+
+
+def extract_encoded(which):
+    """a Latin-1 template that says so in its magic comment, extracted while the extractor's own encoding option says utf-8:
+    the comment wins (as it does when the template is compiled): returns (msgids extracted, expected)"""
+    import io
+    tmpl = "## -*- coding: iso-8859-1 -*-\n${_('caf\u00e9')}\n<% x = _('na\u00efve') %>\n"
+    data = tmpl.encode("iso-8859-1")
+    want = ["caf\u00e9", "na\u00efve"]
+    try:
+        if which == "babel":
+            from mako.ext import babelplugin
+            got = [r[2] if isinstance(r[2], str) else r[2][0] for r in
+                   babelplugin.extract(io.BytesIO(data), ["_"], [], {"encoding": "utf-8"})]
+        else:
+            import os
+            import shutil
+            import tempfile
+            try:
+                from lingua.extractors import register_extractors
+                from mako.ext.linguaplugin import LinguaMakoExtractor
+            except ImportError:
+                return None
+            register_extractors()
+
+            class Opt:
+                keywords = []
+                domain = None
+                comment_tag = True
+            base = tempfile.mkdtemp(prefix="c20enc")
+            try:
+                fn = os.path.join(base, "t.mako")
+                with open(fn, "wb") as f:
+                    f.write(data)
+                got = [m.msgid for m in LinguaMakoExtractor({"comment-tags": "", "encoding": "utf-8"})(fn, Opt)]
+            finally:
+                shutil.rmtree(base, ignore_errors=True)
+    except Exception as e:
+        got = "raised %s: %s" % (type(e).__name__, e)
+    return got, want
